@@ -173,3 +173,154 @@ Definition unboundb (W : world) (complete : list string) (u : suse) : bool :=
 (* the uses the scoping rules call undefined *)
 Definition undefined_uses (o : options) (W : world) (p : program) : list suse :=
   filter (unboundb W (bound_stmts p)) (uses_prog o p).
+
+(* ---- regular programs: where the oracle Spec.scope_viol lists exactly the undefined uses above
+   (ProofsScopeBridge.v).  Two corners are excluded:
+   - a parameter list with a superfluous * or ** (a static error of the parameter-list rules):
+     the resolver does not bind its name, Spec.param_names lists it;
+   - under GlobalReassign, a tuple target at file level with a use inside (x, y[x] = ..):
+     the resolver binds the elements left to right, the oracle resolves the uses first. ---- *)
+Definition set_eqb (a b : list string) : bool :=
+  forallb (fun x => smem x b) a && forallb (fun x => smem x a) b.
+Definition params_reg (ps : params) : bool := set_eqb (param_names ps) (bound_params ps).
+
+Fixpoint reg_expr (e : expr) {struct e} : bool :=
+  match e with
+  | EId _ _ | ELit => true
+  | EOp es => reg_exprs es
+  | ECall _ f a => reg_expr f && reg_args a
+  | ELambda _ ps body => params_reg ps && reg_params ps && reg_expr body
+  | EComp _ iter vars cl body => reg_expr iter && reg_lhs vars && reg_clauses cl && reg_expr body
+  end
+with reg_exprs (es : exprs) {struct es} : bool :=
+  match es with ENil => true | ECons e r => reg_expr e && reg_exprs r end
+with reg_args (a : args) {struct a} : bool :=
+  match a with
+  | ANil => true
+  | APos _ e r | ANamed _ _ e r | AStar _ e r | AStarStar _ e r => reg_expr e && reg_args r
+  end
+with reg_params (ps : params) {struct ps} : bool :=
+  match ps with
+  | PNil => true
+  | PId _ _ r | PStar _ _ r | PStarStar _ _ _ r => reg_params r
+  | PDef _ _ d r => reg_expr d && reg_params r
+  end
+with reg_clauses (cl : clauses) {struct cl} : bool :=
+  match cl with
+  | CNil => true
+  | CFor vars iter r => reg_lhs vars && reg_expr iter && reg_clauses r
+  | CIf c r => reg_expr c && reg_clauses r
+  end
+with reg_lhs (l : lhs) {struct l} : bool :=
+  match l with
+  | LId _ _ | LBad _ => true
+  | LSeq _ ls => reg_lhss ls
+  | LExpr es => reg_exprs es
+  end
+with reg_lhss (ls : lhss) {struct ls} : bool :=
+  match ls with LNil => true | LCons l r => reg_lhs l && reg_lhss r end.
+
+Fixpoint reg_stmt (s : stmt) {struct s} : bool :=
+  match s with
+  | SExpr e => reg_expr e
+  | SBranch _ | SLoad _ _ => true
+  | SIf _ c t f => reg_expr c && reg_stmts t && reg_stmts f
+  | SAssign _ l e => reg_expr e && reg_lhs l
+  | SDef _ _ _ ps body => params_reg ps && reg_params ps && reg_stmts body
+  | SFor _ vars iter body => reg_expr iter && reg_lhs vars && reg_stmts body
+  | SWhile _ c body => reg_expr c && reg_stmts body
+  | SReturn _ e => match e with Some e => reg_expr e | None => true end
+  end
+with reg_stmts (ss : stmts) {struct ss} : bool :=
+  match ss with SNil => true | SCons s r => reg_stmt s && reg_stmts r end.
+
+Fixpoint no_use_lhs (l : lhs) {struct l} : bool :=
+  match l with
+  | LId _ _ | LBad _ => true
+  | LSeq _ ls => no_use_lhss ls
+  | LExpr _ => false
+  end
+with no_use_lhss (ls : lhss) {struct ls} : bool :=
+  match ls with LNil => true | LCons l r => no_use_lhs l && no_use_lhss r end.
+Definition flat_lhs (l : lhs) : bool := match l with LSeq _ ls => no_use_lhss ls | _ => true end.
+
+(* the targets of the file-level statements *)
+Fixpoint flat_stmt (s : stmt) {struct s} : bool :=
+  match s with
+  | SAssign _ l _ => flat_lhs l
+  | SFor _ vars _ body => flat_lhs vars && flat_stmts body
+  | SIf _ _ t f => flat_stmts t && flat_stmts f
+  | SWhile _ _ body => flat_stmts body
+  | _ => true
+  end
+with flat_stmts (ss : stmts) {struct ss} : bool :=
+  match ss with SNil => true | SCons s r => flat_stmt s && flat_stmts r end.
+
+Definition regular (o : options) (p : program) : bool :=
+  reg_stmts p && (negb (o_global_reassign o) || flat_stmts p).
+
+(* ---- rebinding at file level (RReassign, RLoadReassign) ----
+   The reports are those of Spec.t_bind / Spec.t_load at the file-level binders, in
+   execution order (g, f threaded as above). *)
+Definition tn_names (items : list (N * string * N * string)) : list N :=
+  map (fun it => match it with (_, _, tn, _) => tn end) items.
+
+(* the load items inside function bodies: a load there is an error by itself
+   (RLoadInFunction); its names go to the function block and the resolver may
+   also report a rebinding there, about which the specification says nothing *)
+Fixpoint fn_loads_stmt (s : stmt) {struct s} : list N :=
+  match s with
+  | SLoad _ items => tn_names items
+  | SIf _ _ t f => fn_loads_stmts t ++ fn_loads_stmts f
+  | SDef _ _ _ _ body | SFor _ _ _ body | SWhile _ _ body => fn_loads_stmts body
+  | _ => []
+  end
+with fn_loads_stmts (ss : stmts) {struct ss} : list N :=
+  match ss with SNil => [] | SCons s r => fn_loads_stmt s ++ fn_loads_stmts r end.
+
+Fixpoint top_fn_loads_stmt (s : stmt) {struct s} : list N :=
+  match s with
+  | SDef _ _ _ _ body => fn_loads_stmts body
+  | SIf _ _ t f => top_fn_loads_stmts t ++ top_fn_loads_stmts f
+  | SFor _ _ _ body | SWhile _ _ body => top_fn_loads_stmts body
+  | _ => []
+  end
+with top_fn_loads_stmts (ss : stmts) {struct ss} : list N :=
+  match ss with SNil => [] | SCons s r => top_fn_loads_stmt s ++ top_fn_loads_stmts r end.
+
+Section Re.
+Variable o : options.
+
+Fixpoint re_lhs (g f : list string) (l : lhs) {struct l} : list (rule * N) :=
+  match l with
+  | LId n x => fst (t_bind o g f (LId n x))
+  | LSeq _ ls => re_lhss g f ls
+  | _ => []
+  end
+with re_lhss (g f : list string) (ls : lhss) {struct ls} : list (rule * N) :=
+  match ls with
+  | LNil => []
+  | LCons l r => re_lhs g f l ++ re_lhss (snd (tu_lhs o g f l)) f r
+  end.
+
+Fixpoint re_stmt (g f : list string) (s : stmt) {struct s} : list (rule * N) :=
+  match s with
+  | SAssign _ l _ => re_lhs g f l
+  | SDef _ nn x _ _ => fst (t_bind o g f (LId nn x))
+  | SFor _ vars _ body => re_lhs g f vars ++ re_stmts (snd (tu_lhs o g f vars)) f body
+  | SIf _ _ t e =>
+      re_stmts g f t ++ re_stmts (fst (snd (tu_stmts o g f t))) (snd (snd (tu_stmts o g f t))) e
+  | SWhile _ _ body => re_stmts g f body
+  | SLoad _ items => fst (t_load o g f items)
+  | _ => []
+  end
+with re_stmts (g f : list string) (ss : stmts) {struct ss} : list (rule * N) :=
+  match ss with
+  | SNil => []
+  | SCons s r => re_stmt g f s ++ re_stmts (fst (snd (tu_stmt o g f s))) (snd (snd (tu_stmt o g f s))) r
+  end.
+
+End Re.
+
+(* the rebinding reports of the program *)
+Definition rebindings (o : options) (p : program) : list (rule * N) := re_stmts o [] [] p.
